@@ -867,3 +867,65 @@ def rule_g3_scale_siblings(ctx):
                        "then finds dimension sum != scale.size() and refuses every document that contains this element"
                        % (m.name, short(cname), dim, ("%d" % mn) if mn == mx else "%d..%d" % (mn, mx)))
     ctx.floor("R-SIB", 6, n, "g3 observation handlers that append to the cluster")
+
+
+# =========================================================================== R-SIB revision pairs
+def rule_revision_pairs(ctx):
+    """LocalRevision decides, per observation kind, whether an observation takes part in the adjustment.  For
+    every point the observation touches it asks two questions per coordinate group: does the point *have* the
+    coordinate (`test_xy` / `test_z`) and is the coordinate *part of the adjustment* (`active_xy` / `active_z`:
+    false once the point's xy or z was removed).  The two questions belong together: an observation kept for a
+    point whose xy was removed stays in the adjustment with that xy silently held fixed, and the reported
+    exclusion no longer equals deleting the excluded items (C14).  Decided: in every `LocalRevision` method, for
+    every receiver, `test_D` called implies `active_D` called on the same receiver (D in xy, z).  One confirmed
+    exception, frozen with its reason (tables/sib.json `revision_pair_exceptions`)."""
+    fx = ctx.facts
+    rule = "R-SIB"
+    tab = engine.load_table("sib.json")
+    exc = {k: v for k, v in tab.get("revision_pair_exceptions", {}).items() if not k.startswith("_")}
+    cls = "GNU_gama::local::LocalRevision"
+    fx.cls(cls)
+    pairs = {"test_xy": "active_xy", "test_z": "active_z"}
+    lp = "GNU_gama::local::LocalPoint::"
+    n = 0
+    used = set()
+    for fn in sorted(fx.methods_of(cls), key=lambda f: (f.file, f.line, f.key)):
+        if fn.body is None:
+            continue
+        by_recv = {}
+        where = {}
+        for call in fn.calls():
+            callee = F.strip_targs(call.get("callee") or "")
+            if not callee.startswith(lp):
+                continue
+            name = callee[len(lp):]
+            if name not in pairs and name not in pairs.values():
+                continue
+            obj = F.call_object(call)
+            r = F.expr_text(obj) if obj is not None else "?"
+            by_recv.setdefault(r, set()).add(name)
+            where.setdefault((r, name), fn.where(call))
+        if not by_recv:
+            continue
+        ctx.saw(fn)
+        for r, names in sorted(by_recv.items()):
+            for t, a in sorted(pairs.items()):
+                if t not in names:
+                    continue
+                key = "LocalRevision::%s:%s:%s-with-%s" % (fn.name, r, t, a)
+                ok = a in names
+                msg = ""
+                if not ok and ("%s:%s" % (fn.name, a)) in exc:
+                    ok = True
+                    used.add("%s:%s" % (fn.name, a))
+                    msg = "exception: " + exc["%s:%s" % (fn.name, a)]
+                n += 1
+                ctx.report(rule, key, ok, where[(r, t)], fn.short,
+                           msg=msg if ok else "the observation is kept after `%s.%s()` without asking `%s()`: a point whose "
+                           "coordinate was removed from the adjustment still carries this observation, with the coordinate "
+                           "silently held fixed" % (r, t, a), detail={"receiver": r, "asked": sorted(names)})
+    for k in exc:
+        if k not in used:
+            ctx.note("R-SIB revision pairs: exception %s no longer needed" % k)
+    ctx.floor(rule, tab.get("revision_pair_floor", 1), n, "coordinate tests of LocalRevision paired with the activity test")
+    return {"pairs": n}
